@@ -593,6 +593,219 @@ def run(rep, tier):
     fsal_variants(rep, f)
     bdf_restart_rule(rep, f)
     xout_rule(rep, f)
+    rep.rule("R-XOUT-PREPARED", "whenever the callback is handed an interpolant the coefficient buffer behind it was filled for this step: the hand-out condition implies the condition of every block writing the buffer (truth-table over the conditions' atoms)")
+    xout_prepared_rule(rep, f)
     rep.explanation = ("All-paths structural check of the callback protocol in the six solve() functions: monitor automata for call multiplicity and "
                        "Interrupt handling, symbolic value numbering (x + tau*h) for interval contiguity and the interpolant's segment, and the "
                        "loop invariant 'derivative slot = f(x, y)' on Continue/ModifiedSolution/XOut paths. Not decided: numerical effect of a modified state.")
+
+
+# ---------------------------------------------------------------- R-XOUT-PREPARED
+def xout_prepared_rule(rep, f):
+    """Whenever the callback is handed an interpolant, the coefficient buffer behind it was filled for THIS step: the condition
+    under which `Some(StepInterpolant::new(&cont, ..))` is built implies the condition of every block that writes `cont` in
+    the main loop.  Both are boolean expressions over a few atoms (the stepper's dense_output flag, "the step reaches the point
+    requested with XOut", "a callback is present"); the implication is decided by enumerating the atoms' truth values, with
+    `solout.is_some()` true (the hand-out sits inside `if let Some(sol) = solout`)."""
+    import itertools
+    NEW = "dense::StepInterpolant"
+    n_sites = 0
+    for m in XOUT_SOLVERS:
+        fn = aff.solve_def(m)
+        body = f.body(fn)
+        main = main_loop_of(body)
+        key = "R-XOUT-PREPARED:%s" % fn
+        if main is None:
+            continue
+        news = [c for c in tast.find(main, lambda z: z.get("k") == "Call" and (z.get("def") or "").startswith(NEW) and (z.get("def") or "").endswith("::new") and z.get("args"))]
+        if len(news) != 1:
+            rep.inconc("R-XOUT-PREPARED", key, "expected one StepInterpolant::new in the main loop, found %d" % len(news))
+            continue
+        new = news[0]
+        buf = new["args"][0]
+        while buf.get("k") in ("AddrOf", "DropTemps", "Paren") or (buf.get("k") == "Index" and buf.get("i", {}).get("k") in ("Range", "RangeFull", "Struct")):
+            buf = buf["e"]
+        if buf.get("k") != "Path" or buf.get("res") != "local":
+            rep.inconc("R-XOUT-PREPARED", key, "the coefficient buffer handed to StepInterpolant::new is not a local")
+            continue
+        bid = buf["id"]
+        params = {p_.get("id"): p_ for p_ in body.get("params", [])}
+        # the callback parameter: the Option the hand-out's enclosing `if let Some(..) = <param>..` tests
+        cb_params = set()
+        for _, parents_ in tast.find_with_parents(main, lambda z: z is new):
+            for p_ in parents_:
+                if p_.get("k") == "If" and p_["cond"].get("k") == "LetExpr":
+                    for q in tast.find(p_["cond"]["init"], lambda z: z.get("k") == "Path" and z.get("id") in params):
+                        cb_params.add(q["id"])
+            break
+        hk0 = rk.StepHooks(body["body"])
+        acc_region = hk0.accept_if.get(hk0.accept_branch) if hk0.accept_if is not None else None
+
+        def resolve(e, depth=0):
+            while e.get("k") in ("DropTemps", "Paren"):
+                e = e["e"]
+            if e.get("k") == "Path" and e.get("res") == "local" and (e.get("ty") or "") == "bool" and depth < 4:
+                lets = tast.find(body["body"], lambda z: z.get("k") == "Let" and z["pat"].get("k") == "PBind" and z["pat"].get("id") == e.get("id") and z.get("init") is not None)
+                assigned = tast.contains(body["body"], lambda z: z.get("k") == "Assign" and z["l"].get("k") == "Path" and z["l"].get("id") == e.get("id"))
+                if len(lets) == 1 and not assigned:
+                    return resolve(lets[0]["init"], depth + 1)
+            return e
+
+        def ev(e, env):
+            e = resolve(e)
+            k = e.get("k")
+            if k == "Binary" and e.get("op") in ("And", "Or"):
+                a, b = ev(e["l"], env), ev(e["r"], env)
+                return (a and b) if e["op"] == "And" else (a or b)
+            if k == "Unary" and e.get("op") == "Not":
+                return not ev(e["e"], env)
+            if k == "Lit" and str(e.get("v")).lower() in ("true", "false"):
+                return str(e.get("v")).lower() == "true"
+            if k == "MethodCall" and e.get("name") in ("is_some", "is_none") and not e.get("args"):
+                r_ = e["recv"]
+                while r_.get("k") in ("AddrOf", "DropTemps", "Paren"):
+                    r_ = r_["e"]
+                if r_.get("k") == "Path" and r_.get("id") in cb_params:
+                    return e["name"] == "is_some"
+            return env[atom_key(e)]
+
+        def atom_key(e):
+            e = resolve(e)
+            if e.get("k") == "Path" and e.get("res") == "local":
+                return "local:%s" % e.get("id")
+            return tast.render(e)
+
+        def atoms(e, out):
+            e = resolve(e)
+            k = e.get("k")
+            if k == "Binary" and e.get("op") in ("And", "Or"):
+                atoms(e["l"], out)
+                atoms(e["r"], out)
+            elif k == "Unary" and e.get("op") == "Not":
+                atoms(e["e"], out)
+            elif k == "Lit":
+                pass
+            elif k == "MethodCall" and e.get("name") in ("is_some", "is_none") and not e.get("args") and tast.contains(e["recv"], lambda q: q.get("k") == "Path" and q.get("id") in cb_params):
+                pass
+            else:
+                out.add(atom_key(e))
+
+        def guards_of(node):
+            """conditions (expr, polarity) of the ifs / bool matches / bool::then between the main loop and the node"""
+            out = []
+            for _, parents in tast.find_with_parents(main, lambda z: z is node):
+                for p_ in parents:
+                    if p_.get("k") == "If" and p_["cond"].get("k") != "LetExpr":
+                        if tast.contains(p_["then"], lambda z: z is node):
+                            out.append((p_["cond"], True))
+                        elif p_.get("else") is not None and tast.contains(p_["else"], lambda z: z is node):
+                            out.append((p_["cond"], False))
+                    elif p_.get("k") == "MethodCall" and p_.get("name") in ("then", "then_some") and (p_["recv"].get("ty") or "") == "bool" and any(tast.contains(a_, lambda z: z is node) for a_ in p_.get("args", [])):
+                        out.append((p_["recv"], True))
+                    elif p_.get("k") == "Match" and ((p_["scrut"].get("ty") or "") == "bool" or p_["scrut"].get("k") == "Tuple"):
+                        # a match on a boolean or on a tuple of booleans: the arm's condition is its pattern (first match wins)
+                        comps = [p_["scrut"]] if p_["scrut"].get("k") != "Tuple" else list(p_["scrut"].get("es") or p_["scrut"].get("elems") or p_["scrut"].get("args") or [])
+                        T = {"k": "Lit", "v": "true"}
+
+                        def NOT(a):
+                            return {"k": "Unary", "op": "Not", "e": a}
+
+                        def AND(a, b):
+                            return {"k": "Binary", "op": "And", "l": a, "r": b}
+
+                        def OR(a, b):
+                            return {"k": "Binary", "op": "Or", "l": a, "r": b}
+
+                        def pat_cond(pt):
+                            k_ = pt.get("k")
+                            if k_ == "POr":
+                                c = None
+                                for q in pt.get("pats", []):
+                                    pc = pat_cond(q)
+                                    if pc is None:
+                                        return None
+                                    c = pc if c is None else OR(c, pc)
+                                return c
+                            if k_ in ("PWild",) or (k_ == "PBind" and not pt.get("sub")):
+                                return T
+                            if k_ == "PLit" and len(comps) == 1:
+                                v_ = str(((pt.get("e") or pt).get("v"))).lower()
+                                return comps[0] if v_ == "true" else NOT(comps[0]) if v_ == "false" else None
+                            if k_ == "PTuple" and len(pt.get("pats", [])) == len(comps):
+                                c = T
+                                for q, ce in zip(pt["pats"], comps):
+                                    if q.get("k") == "PLit":
+                                        v_ = str(((q.get("e") or q).get("v"))).lower()
+                                        if v_ not in ("true", "false"):
+                                            return None
+                                        c = AND(c, ce if v_ == "true" else NOT(ce))
+                                    elif q.get("k") in ("PWild",) or (q.get("k") == "PBind" and not q.get("sub")):
+                                        pass
+                                    else:
+                                        return None
+                                return c
+                            return None
+                        earlier = None
+                        for a_ in p_["arms"]:
+                            pc = pat_cond(a_["pat"]) if a_.get("guard") is None else None
+                            if tast.contains(a_["body"], lambda z: z is node):
+                                if pc is not None:
+                                    out.append((pc if earlier is None else AND(NOT(earlier), pc), True))
+                                break
+                            if pc is None:
+                                earlier = None
+                                break
+                            earlier = pc if earlier is None else OR(earlier, pc)
+                break
+            return out
+        # the blocks that fill the buffer: writes to it inside the main loop, grouped by their outermost guard
+        writes = tast.find(main, lambda z: (z.get("k") in ("Assign", "AssignOp") and z["l"].get("k") == "Index" and tast.contains(z["l"]["e"], lambda q: q.get("k") == "Path" and q.get("id") == bid))
+                           or (z.get("k") == "MethodCall" and z.get("name") in ("copy_from_slice", "clone_from_slice", "fill") and tast.contains(z["recv"], lambda q: q.get("k") == "Path" and q.get("id") == bid)))
+        # writes made through a helper that receives the buffer mutably count as writes at the call
+        writes += tast.find(main, lambda z: z.get("k") in ("Call", "MethodCall") and (z.get("def") or "") in f.bodies and not (z.get("def") or "").startswith(NEW)
+                            and any(a_.get("k") == "AddrOf" and a_.get("mut") and tast.contains(a_, lambda q: q.get("k") == "Path" and q.get("id") == bid) for a_ in z.get("args", [])))
+        # the buffer may double as scratch space before the step is accepted (Radau's error refinement): what the interpolant reads
+        # is what the accepted step stores
+        if acc_region is not None:
+            writes = [w for w in writes if tast.contains(acc_region, lambda z, w=w: z is w)]
+        if not writes:
+            rep.inconc("R-XOUT-PREPARED", key, "no write to the coefficient buffer `%s` found in the main loop" % buf.get("name"))
+            continue
+        H = guards_of(new)
+        bad = None
+        n_w = 0
+        for w in writes:
+            P = guards_of(w)
+            n_w += 1
+            names = set()
+            for c_, _ in H + P:
+                atoms(c_, names)
+            names = sorted(names)
+            if len(names) > 8:
+                rep.inconc("R-XOUT-PREPARED", key, "too many independent conditions (%d) between the buffer writes and the hand-out" % len(names))
+                bad = "skip"
+                break
+            for vals in itertools.product((False, True), repeat=len(names)):
+                env = dict(zip(names, vals))
+                try:
+                    h = all(ev(c_, env) == pol for c_, pol in H)
+                    p = all(ev(c_, env) == pol for c_, pol in P)
+                except KeyError:
+                    continue
+                if h and not p:
+                    bad = (w, env)
+                    break
+            if bad:
+                break
+        if bad == "skip":
+            continue
+        n_sites += 1
+        if bad:
+            w, env = bad
+            show = ", ".join("%s = %s" % ((k_ if not k_.startswith("local:") else next((q.get("name") for q in tast.find(main, lambda z: z.get("k") == "Path" and "local:%s" % z.get("id") == k_)), k_)), v_) for k_, v_ in env.items())
+            rep.violation("R-XOUT-PREPARED", key, "the callback can be handed an interpolant while the block that fills `%s` (%s) was skipped (%s): the interpolant reads coefficients of an "
+                          "earlier step, or none" % (buf.get("name"), tast.render(w)[:40], show[:160]), w.get("sp"))
+        else:
+            rep.ok("R-XOUT-PREPARED", key, "the hand-out condition implies the condition of all %d write(s) to `%s`" % (n_w, buf.get("name")))
+    if n_sites < 4:
+        rep.inconc("R-XOUT-PREPARED", "R-XOUT-PREPARED:floor", "only %d solvers decided (expected >= 4)" % n_sites)
